@@ -7,7 +7,8 @@ signature `entry/branch/predicate`.
 Stream per entry point (property quantifier): lengths 0..8 first, then random larger ones; value classes
 finite / NaN / +-inf / huge / negative / zero / ties; scalar options at and beyond their documented ranges
 (nprint = 0, maxnan < 0, npoints, nval buffer sizes 1.., AR orders 0..11); one-cell catchments; more catchment
-cells than Voronoi points; series shorter than a period; cell numbers outside the grid.
+cells than Voronoi points; series shorter than a period; cell numbers outside the grid; every entry point that takes
+arrays again with its INPUT arrays handed over read-only (`gen_readonly`).
 """
 import math
 import re
@@ -650,7 +651,46 @@ def gen_hist(rng, scale, size):
     return ps
 
 
+# arguments that are OUTPUT (or in/out) buffers of the entry point: the caller gives them to be written
+OUT_ARGS = {"cd.add1month": {"date"}, "cd.add1day": {"date"}, "cd.getdate": {"date"}, "cs.olsleverage": {"leverages"},
+            "points_inside_polygon": {"inside"}}
+RO_KINDS = ["flag", "bytes", "memmap"]
+
+
+def _nelem(v):
+    return sum(_nelem(x) for x in v) if isinstance(v, list) else 1
+
+
+def gen_readonly(rng, probes, scale):
+    """read-only inputs: for every entry point of the stream that takes arrays, some of its probes again with every
+    INPUT array handed over read-only — `writeable=False` on ordinary memory ("flag"), `np.frombuffer` over an
+    immutable bytes object ("bytes"), `np.memmap(mode="r")` of a scratch file ("memmap"). A kernel that writes into (or
+    sorts) memory it was only given to read changes the caller's data (reported by the worker) or dies on the
+    read-only mapping (attributed to the probe)."""
+    by_entry = {}
+    for p in probes:
+        if p["entry"].startswith("h."):
+            continue
+        names = [k for k, v in p["a"].items() if isinstance(v, dict) and "v" in v and "d" in v
+                 and k not in OUT_ARGS.get(p["entry"], ())]
+        if names:
+            by_entry.setdefault(p["entry"], []).append((p, names))
+    out = []
+    for entry in sorted(by_entry):
+        lst = by_entry[entry]
+        big = [x for x in lst if any(_nelem(x[0]["a"][k]["v"]) >= 3 for k in x[1])] or lst
+        for kind in RO_KINDS:
+            for p, names in rng.sample(big, min(len(big), scale(3, 8))):
+                a = dict(p["a"])
+                for k in names:
+                    a[k] = dict(a[k], ro=kind, name=k)
+                out.append({"kind": "api", "entry": entry, "cls": p["cls"] + "/ro_" + kind,
+                            "pred": p["pred"] + "/ro_" + kind, "a": a})
+    return out
+
+
 def gen_all(rng, scale, size=None):
     """`scale(q, t)` = number of repetitions, `size(q, t)` = largest lengths / grid sides (default: same as scale)"""
     size = size or scale
-    return gen_data(rng, scale, size) + gen_stat(rng, scale, size) + gen_gis(rng, scale, size) + gen_hist(rng, scale, size)
+    base = gen_data(rng, scale, size) + gen_stat(rng, scale, size) + gen_gis(rng, scale, size)
+    return base + gen_readonly(rng, base, scale) + gen_hist(rng, scale, size)
